@@ -21,6 +21,7 @@ import time
 import traceback
 
 COVER = {}
+DEBUG = bool(__import__('os').environ.get('VF_DEBUG'))
 _PATH_COVER = []
 
 
@@ -93,6 +94,8 @@ def explore(fn, deadline_wall, region=None, max_paths=1000000, per_path_timeout=
                     ret = bool(ret)
                 if efilter.ignore:
                     status = None
+                    if DEBUG:
+                        sys.stderr.write('IGNORED(filter)\n')
                 elif efilter.user_exc is not None:
                     exc, tb = efilter.user_exc
                     if isinstance(exc, NotDeterministic):
@@ -117,8 +120,10 @@ def explore(fn, deadline_wall, region=None, max_paths=1000000, per_path_timeout=
                 if failing is not None:
                     cex = deep_realize(pre_args)
                     res['cex'] = {k: _plain(v) for k, v in cex.arguments.items()}
-            except IgnoreAttempt:
+            except IgnoreAttempt as ia:
                 status = None
+                if DEBUG:
+                    sys.stderr.write('IGNORED(outer) %r\n' % (ia.args,))
             except NotDeterministic:
                 status = VerificationStatus.UNKNOWN
                 res['unknown_reasons'].append('NotDeterministic')
